@@ -998,6 +998,15 @@ func (w *World) execDefrag(op Op) StepResult {
 				di.copyBytes += mv.size
 				if mv.src >= 0 {
 					w.cur.movedSlots[mv.src] = mv
+					// a resource bound to the place the allocation has left is stale from here on: the
+					// application has to recreate it at the new place (a Vulkan resource cannot be rebound).
+					// The simulated device must not count the stale binding as an occupant of the vacated
+					// range, which the allocator may hand out again.
+					for r := range w.res {
+						if w.res[r].live && (w.res[r].owner == mv.src || w.res[r].bound && w.res[r].at == mv.src) {
+							w.dev.MarkStale(w.res[r].id)
+						}
+					}
 					w.stats.defragMoves++
 					if mv.srcMem != mv.dstMem {
 						w.stats.crossBlockMoves++
